@@ -103,7 +103,9 @@ service Svc extends Base {
                  extra={"inc_a.thrift": 'namespace rs lib.a\nstruct A { 1: i32 a }\nenum E { P = 1 }\ntypedef list<A> TA\nexception X { 1: string m }\n',
                         "inc_b.thrift": 'include "inc_a.thrift"\nnamespace rs lib.b\nstruct B { 1: optional inc_a.A a, 2: map<string, inc_a.E> m }\n'}))
     # --- quarantined single-shape documents: each exists only to exercise one recorded finding
-    D.append(doc("q_btree_double", 'struct Q { 1: required map<string, double> m (pilota.rust_type = "btree") }\n', shape="btree-map-with-double-value", quarantine="C14-derive-ignores-nested-double"))
+    D.append(doc("btree_double", 'struct Q { 1: required map<string, double> m (pilota.rust_type = "btree") }\nstruct R { 1: optional Q q (pilota.rust_wrapper_arc = "true"), 2: list<map<i32, list<double>>> l (pilota.rust_type = "btree") }\n', shape="btree-map-with-double-value"))
+    # the derive predicates must see through every list level (and through btree containers) down to a hash container / double
+    D.append(doc("derive_vec_ladder", 'struct L { 1: list<list<map<i32, i32>>> a, 2: list<list<set<i32>>> b, 3: list<list<list<map<string, i32>>>> c,\n  4: list<list<double>> d, 5: list<list<list<double>>> e }\nunion U { 1: list<list<set<string>>> s, 2: list<list<double>> d }\nstruct M { 1: list<list<L>> ls, 2: U u }\n', shape="derive-through-list-levels"))
     D.append(doc("q_self_union", "union U { 1: U me, 2: i32 n }\n", shape="self-recursive-union-member", quarantine="C14-union-member-not-boxed"))
     D.append(doc("q_set_of_set", "struct Q { 1: set<set<i32>> a }\n", shape="hash-container-as-set-element", quarantine="C14-hash-container-not-hash"))
     D.append(doc("q_set_of_map", "struct Q { 1: set<map<string, i32>> a, 2: map<set<i32>, i32> b }\n", shape="hash-container-as-key", quarantine="C14-hash-container-not-hash"))
